@@ -56,3 +56,9 @@ EDITS += [
     {'id': 'free-storm-requeue-guard-too-strong', 'expect': 'fire', 'rule': 'C02.O3', 'file': 'spowtd/classify.py', 'old': '        if storm_is_free and storm_candidates[storm]:', 'new': '        if storm_is_free and len(storm_candidates[storm]) > 1:'},
     {'id': 'requeue-guard-len-positive', 'expect': 'silent', 'file': 'spowtd/classify.py', 'old': '                if storm_candidates[matches[jump]]:\n                    matchable_storms.add(matches[jump])', 'new': '                if len(storm_candidates[matches[jump]]) > 0:\n                    matchable_storms.add(matches[jump])'},
 ]
+
+# round 8 (hardening that is not)
+EDITS += [
+    {'id': 'r8-stale-guard-against-rise-keyed-map', 'expect': 'fire', 'rule': 'C02.O4', 'file': 'spowtd/classify.py', 'old': '        assert storm not in matches.items()\n', 'new': '        if storm in matches:\n            continue\n'},
+    {'id': 'r8-empty-candidates-continue', 'expect': 'silent', 'file': 'spowtd/classify.py', 'old': '        assert storm_candidates[storm]\n', 'new': '        if not storm_candidates[storm]:\n            continue\n'},
+]
